@@ -291,9 +291,9 @@ func (c *Ctx) mck(which map[string]bool) {
 						continue
 					}
 					for _, cm := range assumed(p, 0, ie) {
-						if cm.Op == token.GTR && isK(cm.Y, 0) {
+						if (cm.Op == token.GTR || cm.Op == token.NEQ) && isK(cm.Y, 0) {
 							if sub, ok := stripConv(cm.X).(*ssa.BinOp); ok && sub.Op == token.SUB {
-								if _, isLen := builtinCall(sub.X, "len"); isLen {
+								if _, isLen := builtinCall(finalValue(sub.X), "len"); isLen {
 									okCl = true
 								}
 							}
@@ -328,8 +328,8 @@ func (c *Ctx) mck(which map[string]bool) {
 					if e.Kind != pathx.KSelect {
 						return false
 					}
-					for _, st := range e.Select.States {
-						if st.Chan == ssa.Value(q) {
+					for _, ch := range e.Args {
+						if ch == ssa.Value(q) {
 							return true
 						}
 					}
